@@ -43,7 +43,7 @@ InitM == [rows |-> << >>, frames |-> << >>, call |-> None, ret |-> None, rolled 
           pieces |-> << >>, evseen |-> {}, window |-> None,
           cbDue |-> FALSE, cbSeen |-> << >>, cbIn |-> -1, cbDtm |-> -1, cbDtPending |-> FALSE,
           nfevBase |-> 0, inReset |-> FALSE, y0 |-> 0, dtm0 |-> -1, lastExc |-> "none",
-          opTerminated |-> FALSE, dtmPrev |-> -1, opEv |-> << >>, opDir |-> 0]
+          opTerminated |-> FALSE, dtmPrev |-> -1, opEv |-> << >>, opDir |-> 0, fam |-> "unknown"]
 
 (***************************************************************************)
 (* Clauses evaluated on every event that carries a snapshot                 *)
@@ -60,7 +60,7 @@ Always(m, e) ==
 (* Per-event clauses (Chk) and state update (Upd)                            *)
 (***************************************************************************)
 ChkNew(m, e, tr) == IF e.s.counter = 0 /\ e.s.tc = tr.t0 THEN {} ELSE {"C03.FirstRowIsInitial"}
-UpdNew(m, e, tr) == [m EXCEPT !.rows = <<[t |-> e.s.tc, y |-> e.s.yc]>>, !.y0 = e.s.yc, !.dtm0 = e.s.dtm]
+UpdNew(m, e, tr) == [m EXCEPT !.rows = <<[t |-> e.s.tc, y |-> e.s.yc]>>, !.y0 = e.s.yc, !.dtm0 = e.s.dtm, !.fam = tr.family]
 
 UpdIntegrateCall(m, e, tr) ==
     [m EXCEPT !.frames = Append(@, [target |-> e.target, finite |-> e.finite, dir |-> e.dir, depth |-> e.depth,
@@ -94,16 +94,16 @@ ChkAttempt(m, e, tr) ==
     IF IsNone(m.call) THEN {} ELSE
     LET a == m.call.attempts IN
     IF Len(a) = 0
-    THEN (IF tr.family = "rich" \/ e.h = m.call.h THEN {} ELSE {"C04.FirstAttemptIsRequestedStep", "C05.FirstAttemptIsRequestedStep"})
+    THEN (IF m.fam = "rich" \/ e.h = m.call.h THEN {} ELSE {"C04.FirstAttemptIsRequestedStep", "C05.FirstAttemptIsRequestedStep"})
     ELSE (IF e.hm < Last(a).hm /\ ((e.h > 0) = (Last(a).h > 0)) THEN {} ELSE {"C05.RetryShrinks"})
-         \cup (IF tr.family \in {"fixed", "split"} THEN {"C04.FixedStepNeverRetried"} ELSE {})
-         \cup (IF tr.family = "fixedimp" /\ ~m.call.newtonFailed THEN {"C04.ImplicitShortensOnlyOnFailure"} ELSE {})
+         \cup (IF m.fam \in {"fixed", "split"} THEN {"C04.FixedStepNeverRetried"} ELSE {})
+         \cup (IF m.fam = "fixedimp" /\ ~m.call.newtonFailed THEN {"C04.ImplicitShortensOnlyOnFailure"} ELSE {})
 UpdAttempt(m, e, tr) ==
     IF IsNone(m.call) THEN m ELSE [m EXCEPT !.call.attempts = Append(@, [h |-> e.h, hm |-> e.hm])]
 
 ChkAttemptRet(m, e, tr) ==
     IF IsNone(m.call) THEN {} ELSE
-    (IF tr.family \in {"fixed", "split", "adaptive"} /\ e.dT # e.h THEN {"C04.AttemptTakesTheStepItWasGiven", "C02.AttemptTakesTheStepItWasGiven"} ELSE {})
+    (IF m.fam \in {"fixed", "split", "adaptive"} /\ e.dT # e.h THEN {"C04.AttemptTakesTheStepItWasGiven", "C02.AttemptTakesTheStepItWasGiven"} ELSE {})
 UpdAttemptRet(m, e, tr) ==
     IF IsNone(m.call) THEN m ELSE
     [m EXCEPT !.call.lastDT = e.dT, !.call.lastDTm = e.dTm, !.call.newton = e.newton, !.call.redo = "na",
@@ -115,14 +115,14 @@ UpdController(m, e, tr) ==
 ChkIntegRet(m, e, tr) ==
     IF IsNone(m.call) THEN {"C05.ReturnWithoutCall"} ELSE
     LET c == m.call IN
-    (IF tr.family = "rich" \/ c.nret = 0 \/ e.dT = c.lastDT THEN {} ELSE {"C05.ReturnsLastAttempt", "C02.ReturnsLastAttempt"})
-    \cup (IF AdaptiveFam(tr.family) /\ c.redo = "redo" THEN {"C05.RejectedAttemptNeverReturned"} ELSE {})
-    \cup (IF ImplicitFam(tr.family) /\ c.newton = "fail" THEN {"C02.UnconvergedStepNeverAccepted", "C05.UnconvergedStepNeverAccepted"} ELSE {})
+    (IF m.fam = "rich" \/ c.nret = 0 \/ e.dT = c.lastDT THEN {} ELSE {"C05.ReturnsLastAttempt", "C02.ReturnsLastAttempt"})
+    \cup (IF AdaptiveFam(m.fam) /\ c.redo = "redo" THEN {"C05.RejectedAttemptNeverReturned"} ELSE {})
+    \cup (IF ImplicitFam(m.fam) /\ c.newton = "fail" THEN {"C02.UnconvergedStepNeverAccepted", "C05.UnconvergedStepNeverAccepted"} ELSE {})
     \cup (IF e.dTm <= c.hm THEN {} ELSE {"C03.ReturnedStepNotLongerThanRequested", "C04.ReturnedStepNotLongerThanRequested"})
     \cup (IF (e.dT > 0) = (c.h > 0) /\ e.dT # 0 THEN {} ELSE {"C03.ReturnedStepKeepsDirection"})
-    \cup (IF FixedFam(tr.family) /\ ~(e.dT = c.h /\ e.newDt = c.h) THEN {"C04.FixedStepUnchanged"} ELSE {})
-    \cup (IF tr.family = "fixedimp" /\ ~(e.newDt = c.h) THEN {"C04.FixedStepUnchanged"} ELSE {})
-    \cup (IF tr.family = "fixedimp" /\ e.dT # c.h /\ ~c.newtonFailed THEN {"C04.ImplicitShortensOnlyOnFailure"} ELSE {})
+    \cup (IF FixedFam(m.fam) /\ ~(e.dT = c.h /\ e.newDt = c.h) THEN {"C04.FixedStepUnchanged"} ELSE {})
+    \cup (IF m.fam = "fixedimp" /\ ~(e.newDt = c.h) THEN {"C04.FixedStepUnchanged"} ELSE {})
+    \cup (IF m.fam = "fixedimp" /\ e.dT # c.h /\ ~c.newtonFailed THEN {"C04.ImplicitShortensOnlyOnFailure"} ELSE {})
     \cup (IF e.newDt # 0 /\ ((e.newDt > 0) = (c.h > 0)) THEN {} ELSE {"C05.NextStepKeepsDirection"})
 UpdIntegRet(m, e, tr) ==
     [m EXCEPT !.ret = [dT |-> e.dT, newDt |-> e.newDt, tEnd |-> e.tEnd, yEnd |-> e.yEnd], !.call = None]
@@ -159,7 +159,7 @@ UpdCounter(m, e, tr) ==
 (* dense output pieces *)
 ChkSolAdd(m, e, tr) ==
     (IF e.before = Len(m.pieces) THEN {} ELSE {"C06.PieceListTracksLog"})
-    \cup (IF tr.family # "rich" /\ e.hasEnds /\ Len(m.rows) >= 2 /\ IsNone(m.rolled)
+    \cup (IF m.fam # "rich" /\ e.hasEnds /\ Len(m.rows) >= 2 /\ IsNone(m.rolled)
              /\ ~(e.t0 = m.rows[Len(m.rows) - 1].t /\ e.t1 = Last(m.rows).t /\ e.t = e.t1)
           THEN {"C06.PieceSpansItsStep"} ELSE {})
 UpdSolAdd(m, e, tr) == [m EXCEPT !.pieces = Append(@, e.t)]
@@ -205,8 +205,8 @@ UpdCallback(m, e, tr) == [m EXCEPT !.cbSeen = Append(@, e.i), !.cbIn = e.i]
 UpdCallbackRet(m, e, tr) == [m EXCEPT !.cbIn = -1]
 
 ChkDtAssign(m, e, tr) ==
-    (IF FixedFam(tr.family) /\ m.cbIn = -1 /\ HasFrame(m) /\ Some(m.call) THEN {"C04.DtStableDuringStep"} ELSE {})
-    \cup (IF tr.family \in {"fixed", "split", "fixedimp"} /\ m.cbIn = -1 /\ HasFrame(m) /\ Top(m).calls > 0 /\ e.dtm # Top(m).dtmCall
+    (IF FixedFam(m.fam) /\ m.cbIn = -1 /\ HasFrame(m) /\ Some(m.call) THEN {"C04.DtStableDuringStep"} ELSE {})
+    \cup (IF m.fam \in {"fixed", "split", "fixedimp"} /\ m.cbIn = -1 /\ HasFrame(m) /\ Top(m).calls > 0 /\ e.dtm # Top(m).dtmCall
           THEN {"C04.DtKeptBetweenSteps", "C13.DtKeptBetweenSteps"} ELSE {})
 UpdDtAssign(m, e, tr) ==
     IF m.cbIn >= 0 /\ HasFrame(m)
@@ -218,7 +218,7 @@ ChkIntegrateRet(m, e, tr) ==
     IF ~HasFrame(m) THEN {"C03.ReturnWithoutCall"} ELSE
     LET f == Top(m) IN
     (IF f.atTarget /\ ~(e.s.counter = f.c0 /\ e.s.nfev = f.nfev0) THEN {"C13.CallAtTargetChangesNothing"} ELSE {})
-    \cup (IF ~f.atTarget /\ f.finite /\ ~f.terminated /\ e.endUlps > EndUnits THEN {"C03.EndsAtTarget"} ELSE {})
+    \cup (IF ~f.atTarget /\ f.finite /\ ~f.terminated /\ e.endUlps > EndUnits THEN {"C03.EndsAtTarget", "C12.ResumeReachesTarget"} ELSE {})
     \cup (IF f.depth > 1 /\ f.finite /\ e.endUlps > EndUnits THEN {"C09.LandsOnTheEvent"} ELSE {})
     \cup (IF f.depth = 1 /\ e.s.buf # e.s.counter + 1 THEN {"C03.TrimmedOnReturn"} ELSE {})
     \cup (IF f.depth = 1 /\ ~f.atTarget /\ f.terminated /\ e.s.status # "event" THEN {"C09.StatusReportsEvent"} ELSE {})
@@ -249,9 +249,9 @@ UpdResetRet(m, e, tr) ==
     [m EXCEPT !.inReset = FALSE, !.nfevBase = e.s.rhsDone - e.s.nfev, !.pieces = << >>, !.evseen = {},
               !.ret = None, !.rolled = None, !.call = None, !.window = None, !.cbDtPending = FALSE]
 ChkResetRet(m, e, tr) ==
-    (IF e.s.counter = 0 /\ e.s.tc = tr.t0 /\ e.s.yc = m.y0 THEN {} ELSE {"C13.ResetRestoresInitialState"})
-    \cup (IF e.s.nsol = 0 /\ e.s.nev = 0 /\ e.s.status = "notrun" /\ e.s.nfev = 0 THEN {} ELSE {"C13.ResetClearsHistory", "C20.ResetClearsCounter"})
-    \cup (IF e.s.dtm = m.dtm0 THEN {} ELSE {"C13.ResetRestoresStep"})
+    (IF e.s.counter = 0 /\ e.s.tc = tr.t0 /\ e.s.yc = m.y0 THEN {} ELSE {"C13.ResetRestoresInitialState", "C12.ResetRestoresPristineSystem"})
+    \cup (IF e.s.nsol = 0 /\ e.s.nev = 0 /\ e.s.status = "notrun" /\ e.s.nfev = 0 THEN {} ELSE {"C13.ResetClearsHistory", "C20.ResetClearsCounter", "C12.ResetRestoresPristineSystem"})
+    \cup (IF e.s.dtm = m.dtm0 THEN {} ELSE {"C13.ResetRestoresStep", "C12.ResetRestoresPristineSystem"})
     \cup (IF e.s.buf = 1 THEN {} ELSE {"C13.ResetTrimsStorage"})
 
 (* API level results: the observable state against the tracked state *)
@@ -271,7 +271,7 @@ ChkApiRet(m, e, tr) ==
     \cup (IF e.y0Untouched THEN {} ELSE {"C13.CallerDataUntouched"})
     \cup (IF e.nfev = e.s.rhsDone - m.nfevBase THEN {} ELSE {"C20.NfevCountsCompletedCalls"})
     \cup (IF e.nsol = Len(m.pieces) /\ e.solT = m.pieces THEN {} ELSE {"C06.PieceListTracksLog"})
-    \cup (IF tr.dense /\ tr.family # "rich" /\ e.op \in {"integrate"} /\ e.solT # SubSeq(e.grid, 2, Len(e.grid))
+    \cup (IF tr.dense /\ m.fam # "rich" /\ e.op \in {"integrate"} /\ e.solT # SubSeq(e.grid, 2, Len(e.grid))
           THEN {"C06.PiecesAreExactlyTheRecordedSteps", "C09.PiecesAreExactlyTheRecordedSteps", "C12.PiecesAreExactlyTheRecordedSteps"} ELSE {})
     \cup (IF tr.dense /\ e.op = "integrate" /\ Len(e.solT) >= 2
              /\ ~(\A k \in 1..(Len(e.solT) - 1) : (e.solT[k] < e.solT[k + 1]) = (e.solT[1] < e.solT[2]) /\ e.solT[k] # e.solT[k + 1])
@@ -290,7 +290,9 @@ ChkApiRet(m, e, tr) ==
              /\ ~(Len(m.opEv) > 0 /\ Last(m.opEv).term /\ \A k \in 1..(Len(m.opEv) - 1) : ~m.opEv[k].term)
           THEN {"C09.ExactlyTheEarliestTerminalEventReported"} ELSE {})
     \cup (IF e.op = "integrate" /\ e.err = "none" /\ m.opTerminated
-             /\ (\E k \in 1..Len(m.opEv) : Beyond(m.opDir, Last(e.grid), m.opEv[k].t) /\ ~(k = Len(m.opEv) /\ e.lastEvUlps <= EndUnits))
+             /\ Len(e.evT) >= Len(m.opEv)
+             /\ (\E k \in 1..Len(m.opEv) : Beyond(m.opDir, Last(e.grid), m.opEv[k].t)
+                                            /\ e.evGap[Len(e.evT) - Len(m.opEv) + k] > EndUnits)
           THEN {"C09.NoEventBeyondTheStop"} ELSE {})
     \cup (IF e.op = "integrate" /\ e.err = "none"
           THEN LET terms == {k \in 1..Len(e.truthT) : e.truthTerm[k] /\ e.truthDirOk[k]} IN
@@ -302,7 +304,7 @@ ChkApiRet(m, e, tr) ==
     \cup (IF e.op = "reset" /\ ~(e.grid = <<tr.t0>> /\ e.ygrid = <<m.y0>> /\ e.nsol = 0 /\ e.evT = << >> /\ e.status = "notrun"
                                  /\ e.nfev = 0 /\ e.dtm = m.dtm0 /\ e.lenT = 1)
           THEN {"C13.ResetRestoresInitialState"} ELSE {})
-UpdApiRet(m, e, tr) == m
+UpdApiRet(m, e, tr) == [m EXCEPT !.fam = e.family]
 UpdApi(m, e, tr) == [m EXCEPT !.opTerminated = FALSE, !.opEv = << >>, !.opDir = 0]
 
 Chk(m, e, tr) ==
